@@ -245,14 +245,14 @@ class Effects:
         if isinstance(e, ast.Call):
             f = e.func
             if isinstance(f, ast.Attribute):
-                if f.attr in VIEW_CALLS or (iterating and f.attr in ("values", "items")):
-                    return self._roots(f.value, s, selfname)
-                if f.attr in ("copy", "deepcopy", "tolist", "keys"):
-                    return set()
                 # self.method() with a return-alias summary
                 for ctx2, callee, prefix in self._resolve_callee(e, s, selfname):
                     if prefix == "" and callee is not s.func:
                         return set(self.summary(ctx2, callee).returns_alias)
+                if f.attr in VIEW_CALLS or (iterating and f.attr in ("values", "items")):
+                    return self._roots(f.value, s, selfname)
+                if f.attr in ("copy", "deepcopy", "tolist", "keys"):
+                    return set()
             if isinstance(f, ast.Name) and f.id in ("enumerate", "zip", "reversed", "sorted", "list", "tuple", "iter") and iterating:
                 out = set()
                 for a in e.args:
@@ -539,7 +539,12 @@ class Effects:
         return self._trans(ctx, func, "r")
 
     def _trans(self, ctx, func, kind):
-        cache = self._trans_w if kind == "w" else self._trans_r
+        """kind: 'w' writes, 'r' reads, 'wx' writes not counting anything done inside property getters (read-only by convention)"""
+        if kind == "wx":
+            cache = self.__dict__.setdefault("_trans_wx", {})
+        else:
+            cache = self._trans_w if kind == "w" else self._trans_r
+        site_kind = "w" if kind == "wx" else kind
         key = (id(ctx), id(func))
         if key in cache:
             return cache[key]
@@ -556,13 +561,15 @@ class Effects:
             order.append(k)
             for cs in self.summary(c, f).calls:
                 for c2, f2 in cs.targets:
+                    if kind == "wx" and f2.kind == "getter":
+                        continue
                     if (id(c2), id(f2)) not in seen:
                         stack.append((c2, f2))
         val = {k: set(cache.get(k, ())) for k in order}
         for k in order:
             c, f = seen[k]
             for st in self.summary(c, f).sites:
-                if st.kind == kind:
+                if st.kind == site_kind:
                     val[k].add(st.path)
         changed = True
         while changed:
@@ -575,6 +582,8 @@ class Effects:
                     if cs.is_ctor:
                         continue
                     for c2, f2 in cs.targets:
+                        if kind == "wx" and f2.kind == "getter":
+                            continue
                         sub = val.get((id(c2), id(f2)), cache.get((id(c2), id(f2)), set()))
                         for pth in sub:
                             full = (cs.prefix + "." if cs.prefix else "") + pth
@@ -594,12 +603,15 @@ class Effects:
             for n in walk_no_nested(part):
                 ids.add(id(n))
         out = set()
+        site_kind = "w" if kind == "wx" else kind
         for st in s.sites:
-            if st.kind == kind and id(st.node) in ids:
+            if st.kind == site_kind and id(st.node) in ids:
                 out.add(st.path)
         for cs in s.calls:
             if id(cs.node) in ids and cs.prefix is not None and not cs.is_ctor:
                 for c2, f2 in cs.targets:
+                    if kind == "wx" and f2.kind == "getter":
+                        continue
                     for pth in self._trans(c2, f2, kind):
                         out.add((cs.prefix + "." if cs.prefix else "") + pth)
         return out
